@@ -32,6 +32,7 @@ def run(ctx):
     log, panics = sc.run_driver_with_restart(ctx, binary, {"VERIF_SCHEDULES": spath, "VERIF_NRANDOM": 400 if ctx.quick else 6000, "VERIF_SHUTDOWN": 1}, "c16")
     for p in panics:
         ctx.violation("panic:%s:%s" % (p["top"], p["msg"]), "the server process crashed in run %s: %s; last events: %s" % (p["run"], p["msg"], json.dumps(p["events"])[:1500]), p)
+    ntls, tls_steps = sc.tls_front(ctx, binary)      # Shutdown behind a TLS listener (TlsAccept.tla histories end with Shutdown)
     nruns, accepted, drift = sc.validate(ctx, log, {"hooks", "shutdown", "responses"})
     if drift and not ctx.viol:
         raise vlib.Inconclusive("model drift: %d recorded run(s) are not behaviours of Server.tla although no property-level anomaly was observed; first: run %s at event %s after %s" % (
@@ -42,7 +43,8 @@ def run(ctx):
         "evaluations": nruns + len(panics),
         "distinct_nontrivial": nsd,
         "rule": "a run = one controlled execution of the real Server.Serve/Shutdown over in-memory connections inside a synctest bubble (virtual time: the 3 s grace timer fires when the controller lets it); non-trivial = runs in which Shutdown was called; %d runs start from TLC-generated schedules (%s); every run validated by TLC against TraceServer.tla and judged by the oracle (Serve result, handler after Shutdown returned, hook pairing, leaked goroutines)" % (len(scheds), ", ".join(TRAPS)),
+        "tls_histories": ntls, "tls_rule": "TlsAccept.tla histories end with Shutdown while clients are connected, mid-handshake or past it: Shutdown returns (connections past the handshake are cut after the grace period), Serve returns, hooks pair, and a client accepted before the call that completes its handshake after Shutdown returned gets no handler",
         "trap_schedules": len(scheds), "events_validated": len(log),
         "samples": ([scheds[0]] if scheds else []) + runs[len(runs) // 3][:25],
     }, assumptions=["the grace period is an ordering / virtual time, no wall-clock bound is verified",
-                    "controlled runs are macro-step sequences (see C08)", "TLS-less in-memory connections"])
+                    "controlled runs are macro-step sequences (see C08)", "the gate-level runs use TLS-less in-memory connections; TLS is covered by the TlsAccept histories"])
